@@ -40,6 +40,7 @@ type ExecInfo struct {
 	CtxDone    bool
 	HasTimeout bool
 	Deadline   time.Duration
+	wbuf       []byte // the process's (reused) write buffer
 }
 
 type procLayer struct {
@@ -189,7 +190,17 @@ func (pl *procLayer) run(ctx context.Context, hc interp.HandlerContext, info *Ex
 			if pl.onWrite != nil {
 				pl.onWrite(info.Key)
 			}
-			_, _ = w.Write(act.Data)
+			// like a real process pipe (os/exec copies through one buffer): the chunk is handed
+			// over in a buffer that is reused - and therefore overwritten - after Write returns
+			if cap(info.wbuf) < len(act.Data) {
+				info.wbuf = make([]byte, len(act.Data)+64)
+			}
+			b := info.wbuf[:len(act.Data)]
+			copy(b, act.Data)
+			_, _ = w.Write(b)
+			for i := range b {
+				b[i] = 0xAA
+			}
 			if pl.onWrite != nil {
 				pl.onWrite("")
 			}
